@@ -198,6 +198,16 @@ prop('C14', 'exploration',
      'strings up to length 1 (quick) / 2 (thorough) over the alphabet; the form action is outside the property',
      'TLA+ wire model + TLC + replay with independent readers', 'section 5 C14')
 
+prop('C11', 'exploration',
+     'XmlEntry.tla enumerates words of hostile constructs (five kinds of entity declaration, external DTD, XInclude, stylesheet '
+     'PI, UTF-16, BOM, truncations, non-XML) x the entry-point table extracted from the code at check time (54 entry points: '
+     'generated *_from_string functions of every schema module, SOAP parsers, SP / IdP parse functions per binding, metadata '
+     'load, signature pre-check) with the contract (entity declarations and malformed input refused, never any file or network '
+     'access) and a defusing-parser pipeline (a plain-parser variant is the vacuity control); every case is executed with '
+     'audit-hook canaries; an AST inventory lists every XML-parsing call site and requires the defusing parser there',
+     'access is observed through sys.addaudithook events naming the canary path / host; the optional lxml backend is not installed',
+     'TLA+ grammar/entry-point enumeration + TLC + replay with I/O canaries + static call-site inventory', 'section 5 C11')
+
 
 def main():
     props = [json.loads(l) for l in open(os.path.join(VERIF, 'properties.jsonl'))]
